@@ -8,7 +8,7 @@ rm -rf $SNAP; mkdir -p $SNAP
 cd /verif && tar cf - --exclude=.cache --exclude=.git --exclude=evidence . | (cd $SNAP && tar xf -)
 mkdir -p $SNAP/evidence
 [ -d /tmp/sv ] || git -C /repo worktree add -q /tmp/sv HEAD
-cd /tmp/sv && git checkout -q --detach $(git -C /repo rev-parse HEAD) && git checkout -- .
+cd /tmp/sv && git checkout -q --detach $(git -C /repo rev-parse HEAD) && git checkout -- . && git clean -fdq src
 ALL="C01 C02 C03 C04 C05 C06 C07 C08 C09 C10 C11 C12 C13 C14 C15 C16 C17 C18 C19"
 if [ "$1" != "refactors" ]; then
 for d in $SNAP/seeded/*/; do
@@ -30,7 +30,7 @@ for d in $SNAP/seeded/*/; do
     done
     if [ -n "$others" ]; then echo "SEED $id: not flagged by $prop; detected by$others"; else echo "SEED $id: MISSED by every check"; fi
   fi
-  cd /tmp/sv && git checkout -- .
+  cd /tmp/sv && git checkout -- . && git clean -fdq src
 done
 fi
 if [ "$1" != "seeds" ]; then
@@ -45,7 +45,7 @@ for p in $SNAP/refactors/*.patch; do
     if [ $? -ne 0 ]; then fl="$fl $c"; grep -E "^  rule" /tmp/rg_out.txt | head -3 | cut -c1-300; fi
   done
   echo "REFACTOR $n: ${fl:-clean}"
-  cd /tmp/sv && git checkout -- .
+  cd /tmp/sv && git checkout -- . && git clean -fdq src
 done
 fi
 echo DONE
